@@ -1,5 +1,6 @@
-(* C14: extraction of the executable planner model for the re-execution correspondence
-   (checks/c14.py). Same directives as ExtractLogql.v; the entry point is script_sqls. *)
+(* C14: extraction of the executable planner models for the re-execution correspondence
+   (checks/c14.py). Same directives as ExtractLogql.v; the entry points are script_sqls (LogQL) and
+   prof_case_sqls (the profile planners of model/ReplanProf.v). *)
 From Coq Require Import Extraction ExtrOcamlBasic ExtrOcamlString.
-From Qryn Require Import lib.Strs model.Sql model.SqlRender model.Logql model.LogqlPlan model.LogqlCases.
-Extraction "replanmodel.ml" script_sqls.
+From Qryn Require Import lib.Strs model.Sql model.SqlRender model.Logql model.LogqlPlan model.LogqlCases model.ProfSel model.ReplanProf.
+Extraction "replanmodel.ml" script_sqls prof_case_sqls.
